@@ -11,6 +11,8 @@
 //	race17       deterministic parked schedule: final persist vs the last setOffset (F17)         (scan.go)
 //	recycle29    deterministic: the record slice of an unconfirmed event after cancel (F29)       (scan.go)
 //	stale41      deterministic parked schedule: sync compares the live offset with a stale size (F17b) (stale.go)
+//	jsonparsers  unit: k8s / logfmt parsers' record boundaries and offsets vs the line reader model  (jsonp.go)
+//	leak50       deterministic: rotated / truncated file whose last line has no newline (F50)        (leak.go)
 package main
 
 import (
@@ -53,6 +55,10 @@ func dispatch(rp replayFile, verbose bool) bool {
 		replayRecycle29(rp.Input)
 	case "stale41":
 		replayStale41(rp.Input)
+	case "jsonparsers":
+		replayJsonParsers(rp.Input)
+	case "leak50":
+		replayLeak50(rp.Input)
 	default:
 		return false
 	}
@@ -95,10 +101,12 @@ func main() {
 	rng := vh.NewRng(args.Seed)
 	sectionLineReader(rng.Fork("linereader"))
 	sectionDescs(rng.Fork("descs"))
+	sectionJsonParsers(rng.Fork("jsonparsers"))
 	sectionScanner(rng.Fork("scanner"))
 	sectionRotation(rng.Fork("rotation"))
 	sectionRace17(rng.Fork("race17"))
 	sectionRecycle29(rng.Fork("recycle29"))
 	sectionStale41()
+	sectionLeak50()
 	res.Write(args.Out)
 }
